@@ -2,7 +2,7 @@
     completeness premise of C16_enum_hit / C16_cross_decode_typed holds at least for all base types. *)
 From RB Require Import Base.Prelude Sig.Types Sig.Validator Wire.Bytes Wire.Align Wire.Text Wire.Value Wire.SpecEnc
   Wire.Marshal Wire.Relabel Wire.MarshalProofs Wire.Decode Wire.Unmarshal Wire.DecodeLemmas Wire.DecodeComplete
-  Wire.HasSig Wire.Derive Wire.DeriveProofs Wire.Enums Wire.EnumsProofs Wire.C16Cross Wire.C16Ops.
+  Wire.HasSig Wire.Derive Wire.DeriveProofs Wire.Enums Wire.EnumsProofs Wire.C16Cross Wire.C16Final Wire.C16Ops.
 
 Definition c_u : N := 117. Definition c_s : N := 115. Definition c_t : N := 116.
 
@@ -101,6 +101,37 @@ Proof.
       [constructor|reflexivity|exists BUint32; split; reflexivity].
   - apply (sig_macro_hit matches_base complete_base 66 true ex_hctx _ _ [] (RBase BUint32) (tl ex_macro_cases) Hav (fuel_ok_66 _));
       [constructor|reflexivity|exists BUint32; split; reflexivity].
+Qed.
+
+(* with the completeness theorem of Wire/DecodeComplete.v: case C(u8, u64) of the derived enum and the tuple case of
+   the macro enums, from a variant "(yt)" marshalled by the derived enum itself at an odd position *)
+Example ex_enum_hit_struct :
+  let k := CFields false ex_rs in
+  let c := {| mbuf := [9; 9; 9]; mfds := 0 |} in
+  let c' := fst (derive_case_marshal false k (PFields [VBase BByte 7; VBase BUint64 258]) c) in
+  let u := ctx_at (mbuf c' ++ [165]) 3 0 in
+  derive_enum_unmarshal 66 false ex_cases u = Ok (ECase 2 ex_sv, ctx_at (mbuf c' ++ [165]) (len (mbuf c')) 0)
+  /\ var_macro_unmarshal 66 false ex_macro_cases u = Ok (ECase 2 ex_sv, ctx_at (mbuf c' ++ [165]) (len (mbuf c')) 0).
+Proof.
+  cbv zeta.
+  set (k := CFields false ex_rs). set (c := {| mbuf := [9; 9; 9]; mfds := 0 |}).
+  assert (Em : derive_case_marshal false k (PFields [VBase BByte 7; VBase BUint64 258]) c
+               = marshal_t false (VVariant (case_ty k) ex_sv) c)
+    by (apply derive_enum_marshal_variant; [vm_compute; discriminate|reflexivity]).
+  rewrite Em.
+  destruct (marshalled_variant_at false (case_ty k) ex_sv c (fst (marshal_t false (VVariant (case_ty k) ex_sv) c)) [165] 0) as [Hav Haft].
+  - exists TVariant. reflexivity.
+  - reflexivity.
+  - vm_compute. discriminate.
+  - left. vm_compute. reflexivity.
+  - reflexivity.
+  - vm_compute. reflexivity.
+  - reflexivity.
+  - change (wire_val ex_sv c) with ex_sv in *. rewrite <- Haft. split.
+    + apply (derive_enum_hit' 66 false _ _ _ (firstn 2 ex_cases) k (skipn 3 ex_cases) Hav (fuel_ok_66 _));
+        [repeat constructor; discriminate|reflexivity|split; reflexivity].
+    + apply (var_macro_hit' 66 false _ _ _ (firstn 2 ex_macro_cases) (macro_case k) (skipn 3 ex_macro_cases) Hav (fuel_ok_66 _));
+        [repeat constructor; discriminate|reflexivity|split; reflexivity].
 Qed.
 
 (** ** cross-decoding *)
